@@ -2,5 +2,6 @@ SPECIFICATION TraceSpec
 CONSTANTS
   Defect = "none"
   MaxChanges = 0
+  FocusKeys = {}
 POSTCONDITION TraceAccepted
 CHECK_DEADLOCK FALSE
